@@ -438,6 +438,14 @@ func (r *rend) layoutTok(kind string, p Pos) {
 // beginLine starts a statement line with the block's leading whitespace.
 func (r *rend) beginLine(ws string) {
 	r.blankLines(r.st.pBlank)
+	if strings.Contains(ws, "\t") || len(ws) >= 8 {
+		if r.r.Intn(8) == 0 {
+			if alt := equivalentWS(ws); alt != ws {
+				ws = alt
+				r.feat["indent-equivalent-spelling"]++
+			}
+		}
+	}
 	r.write(ws)
 	r.lineStart = true
 	r.prevRaw = ""
@@ -464,6 +472,32 @@ func (r *rend) endLine(last bool) {
 			}
 		}
 	}
+}
+
+// wsCol is the indentation the scanner attributes to a leading-whitespace
+// string: a space counts 1, a tab advances to 8 - (characters so far) mod 8.
+func wsCol(ws string) int {
+	col := 0
+	for i := 0; i < len(ws); i++ {
+		if ws[i] == '\t' {
+			col += 8 - i%8
+		} else {
+			col++
+		}
+	}
+	return col
+}
+
+// equivalentWS returns a different spelling with the same wsCol: tabs
+// expanded to spaces, or eight leading spaces folded into a tab.
+func equivalentWS(ws string) string {
+	if strings.Contains(ws, "\t") {
+		return strings.Repeat(" ", wsCol(ws))
+	}
+	if len(ws) >= 8 {
+		return "\t" + ws[8:]
+	}
+	return ws
 }
 
 func (r *rend) moreWS() string {
